@@ -63,6 +63,10 @@ def plan(prop):
             obs.append((core, lambda ctx, k=k, c=closed: co.ob_deep_copy(ctx, k, c)))
         for n in (1, 2, 3):
             obs.append((core, lambda ctx, n=n: co.ob_accept_route_state(ctx, n)))
+    if prop in ('C01', 'C05', 'C06'):
+        rl = [(1, 1, True), (0, 1, True), (1, 0, True), (1, 1, False)] if Q else [(1, 1, True), (0, 1, True), (1, 0, True), (1, 1, False), (2, 1, True), (1, 2, True), (2, 2, True), (0, 2, False)]
+        for b, a, closed in rl:
+            obs.append((core, lambda ctx, b=b, a=a, c=closed: co.ob_capacity_reload(ctx, b, a, c)))
     if prop in ('C01', 'C06'):
         for k, n in (((0, 1), (1, 2)) if Q else ((0, 1), (1, 2), (2, 3))):
             obs.append((core, lambda ctx, k=k, n=n: co.ob_route_level_gates(ctx, k, n)))
